@@ -1,9 +1,10 @@
 import FastorModel.Driver.Common
 import FastorModel.Model.ViewWrite
+import FastorModel.Model.ViewAlias
 import FastorModel.Model.Config
 /- `vw` command of the driver: sequences of writes through views of one parent tensor (C05, C18) -/
 namespace Fastor.Driver
-open Fastor Fastor.ViewWrite
+open Fastor Fastor.ViewWrite Fastor.ViewAlias
 
 /-- modular inverse by Fermat (the symbolic carrier has no division; only used if a script asks for it) -/
 def fpPow (a : UInt64) (e : Nat) : UInt64 := Id.run do
@@ -32,6 +33,7 @@ def parseDims (s : String) : Option (List Nat) := (s.splitOn "x").mapM String.to
 structure WSpec where
   op : WOp
   na : Bool
+  keep : Bool
   rk : String
   c : Int
   dst : List Seq
@@ -41,8 +43,10 @@ structure WSpec where
 def parseWrite (w : String) : Option WSpec := do
   let f := w.splitOn "."
   let o ← f[0]?
-  let na := o.endsWith "n"
-  let o := if na then String.ofList (o.toList.dropLast) else o
+  let suffix := o.toList.reverse.takeWhile (fun ch => ch == 'n' || ch == 'k')
+  let na := suffix.contains 'n'
+  let keep := suffix.contains 'k'
+  let o := String.ofList (o.toList.take (o.length - suffix.length))
   let op ← (match o with
     | "set" => some WOp.set | "add" => some .add | "sub" => some .sub | "mul" => some .mul | "div" => some .div | _ => none)
   let rk ← f[1]?
@@ -50,7 +54,7 @@ def parseWrite (w : String) : Option WSpec := do
   let dst ← (f[3]?).bind parseRanges
   let src ← parseRanges (f[4]?.getD "")
   let src2 ← parseRanges (f[5]?.getD "")
-  return ⟨op, na, rk, c, dst, src, src2⟩
+  return ⟨op, na, keep, rk, c, dst, src, src2⟩
 
 def clsOf (fixed : Bool) (rank : Nat) : Cls :=
   match fixed, rank with
@@ -94,6 +98,8 @@ def runVw (kv : List (String × String)) : String := Id.run do
   let mut nw := 0
   let mut nvs := 0
   let mut routes : List String := []
+  let mut flag := false      -- `_does_alias` of the stored view object
+  let mut first := true
   for w in ws do
     let axs := axesOf cls dims w.dst
     let exts := axs.map (·.ext)
@@ -115,15 +121,21 @@ def runVw (kv : List (String × String)) : String := Id.run do
                else ⟨true, fun _ j => env 6 (j / e1 * 2) * env 7 (j % e1) + env 6 (j / e1 * 2 + 1) * env 7 (e1 + j % e1)⟩
       | "a" => ⟨false, fun m j => m (spos j)⟩
       | _ => ⟨false, fun m j => m (spos j) * c + m (spos2 j)⟩
+    -- the view object: a fresh one per write unless the script keeps the previous one
+    let obj : ViewObj := ⟨true, (if w.keep && !first then flag else false)⟩
+    let obj := if w.na then obj.noalias else obj
+    let guarded := obj.takesGuardedPath (w.rk == "s")
+    flag := (obj.after (w.rk == "s")).flag
+    first := false
     let flatRhs := w.rk == "f" && dims.length > 1
     let cstep := if w.rk == "s" then 1 else V
     let its := itersOf cls V vea dims axs flatRhs cstep
     let m0 : Nat → Fp := let a := mem; fun p => a[p]?.getD 0
     let nel := exts.prod
     -- the alias flag: guarded path through a copy of the parent (every slice view class honours it)
-    let its' := if w.na && w.rk != "s" then itersOf cls V vea dims axs false V else its
+    let its' := if guarded then itersOf cls V vea dims axs false V else its
     mem :=
-      if w.na && w.rk != "s" then
+      if guarded then
         let tmp := (Array.range nel).map (rhs.val m0)
         let cpy := execArr .set (fun _ j => tmp[j]?.getD 0) its mem
         execArr w.op (fun _ j => cpy[dpos j]?.getD 0) its' mem
@@ -136,7 +148,7 @@ def runVw (kv : List (String × String)) : String := Id.run do
     nvs := nvs + (if V > 1 then (its'.filter fun it => it.kind == .vstore).length else 0)
     -- positions of A read by the statement
     let rdA : List Nat :=
-      if w.na && w.rk != "s" then List.range NA
+      if guarded then List.range NA
       else (if w.op == .set then [] else wl) ++
            (if w.rk == "a" then (List.range exts.prod).map spos else if w.rk == "b" then (List.range exts.prod).map spos ++ (List.range exts.prod).map spos2 else [])
     rd0 := hstep rd0 (hashNats 0 (sortDedup rdA))
